@@ -161,7 +161,7 @@ def install_fmt(ex, elem_hook=None):
                     yield from go(i + 1, k + 1)
         yield from go(0, 0)
 
-    @skel.stub(ex, r"Formatter::(<'_>::)?write_fmt$|<.* as (std::fmt::|core::fmt::)?Write>::write_fmt$", "Formatter::write_fmt -> the pieces are appended to the output")
+    @skel.stub(ex, r"Formatter::(<'_>::)?write_fmt$|<.* as (std::fmt::|core::fmt::|std::io::)?Write>::write_fmt$", "Formatter::write_fmt -> the pieces are appended to the output")
     def write_fmt(ex_, callee, args, rt):
         for _ in emit_all(ex_, args[1], args[0]):
             yield Ok(UNIT)
